@@ -142,10 +142,10 @@ def model_polys(b, a, n):
   return ({k: seq_of(c, n) for k, c in enumerate(b)}, {k: seq_of(c, n) for k, c in enumerate(a)})
 
 
-def run_and_check(filt, N, D, x, bt, what, leak_check=True, mem=None):
+def run_and_check(filt, N, D, x, bt, what, leak_check=True, mem=None, zero=ZERO):
   with warnings.catch_warnings(record=True) as w:
     warnings.simplefilter("always")
-    out = filt(list(x), zero=ZERO) if mem is None else filt(list(x), zero=ZERO, memory=list(mem))
+    out = filt(list(x), zero=zero) if mem is None else filt(list(x), zero=zero, memory=list(mem))
     # "sampled once per output sample": nothing is sampled by the call itself, and
     # after j outputs every coefficient source has delivered exactly j values
     for s, kind, l in bt.srcs:
@@ -176,7 +176,7 @@ def run_and_check(filt, N, D, x, bt, what, leak_check=True, mem=None):
       raise Violation("%s: output resumed after it had ended" % what)
     del out, it, filt
     gc.collect()
-  exp = diffeq_ref(N, D, x, 0, mem)
+  exp = diffeq_ref(N, D, x, zero, mem)
   if len(got) != len(exp):
     raise Violation("%s: %d outputs, expected %d (input %d samples, coefficient streams %r)"
                     % (what, len(got), len(exp), len(x), [(k, l) for _, k, l in bt.srcs]))
@@ -206,7 +206,9 @@ def strat_single(tier):
     route=st.sampled_from(["expr", "dict", "list"]),
     # a numerator with no term at all (the zero-input response of the feedback part), and a given memory
     null_num=st.sampled_from([False] * 5 + [True]),
-    mem=st.one_of(st.none(), st.none(), st.lists(qv, min_size=3, max_size=3)))))
+    mem=st.one_of(st.none(), st.none(), st.lists(qv, min_size=3, max_size=3)),
+    # the value standing for x[n<0] and, without a memory, y[n<0]
+    zero=st.one_of(st.just(ZERO), st.just(ZERO), qnz))))
 
 
 def labels_for(b, a, x, got, bt):
@@ -247,11 +249,15 @@ def run_single(c):
     hash(filt)
     {filt: "kept"}
   N, D = model_polys(b, a, len(x) + 2)
-  got = run_and_check(filt, N, D, x, bt, "filter b=%r a=%r route=%s memory=%r" % (b, a, c["route"], mem), mem=mem)
+  zero = c.get("zero", ZERO)
+  got = run_and_check(filt, N, D, x, bt, "filter b=%r a=%r route=%s memory=%r zero=%r" % (b, a, c["route"], mem, zero),
+                      mem=mem, zero=zero)
   nstreams = sum(1 for cc in b + a if cc[0] != "const")
   nt = (any(cc[0] != "const" for cc in a) or nstreams >= 2) and len(got) >= 3
   return {"nontrivial": nt, "labels": labels_for(b, a, x, got, bt) + ["route:" + c["route"]] + (
     ["no numerator term"] if not b else []) + (["memory given"] if mem is not None else []) + (
+    ["non-zero zero value"] if zero != 0 else []) + (
+    ["non-zero zero value, a0 stream"] if zero != 0 and a[0][0] != "const" else []) + (
     ["control stream"] if bt.controls else [])}
 
 
@@ -333,7 +339,8 @@ def strat_algebra(tier):
   fir = lambda lo, hi: st.lists(coef(lo, hi), min_size=1, max_size=3).map(live)
   return st.integers(3, 7).flatmap(lambda n: st.fixed_dictionaries(dict(
     op=st.sampled_from(["add", "sub", "mul", "scale", "delay", "mul_iir", "add_iir", "neg", "shared_square",
-                        "hub_reuse", "hub_reuse", "div_delayed_gain", "add_fir_to_iir", "add_number", "copy"]),
+                        "hub_reuse", "hub_reuse", "div_delayed_gain", "add_fir_to_iir", "add_number", "copy",
+                        "mul_common", "mul_common"]),
     hub=st.fixed_dictionaries(dict(c0=st.integers(1, 3), c1=st.integers(-3, 3).filter(lambda v: v != 0),
                                    c2=st.integers(-2, 2), d=st.integers(3, 4), extra=st.integers(0, 1),
                                    feedback=st.booleans())),
@@ -437,6 +444,24 @@ def run_algebra(c):
     Ng, _ = model_polys(gb, one, n)
     real, N, D = f * g, P_mul(Nf, Ng), Df
     used = (fb + gb, fa)
+  elif op == "mul_common":
+    # (Nf / C) * (C / Dg) with a constant polynomial C of two or three terms: element by element this is
+    # (Nf*C) / (C*Dg) - with Streams in Nf or Dg it is NOT the same time-varying system as Nf / Dg
+    h = c["hub"]
+    C = [("const", h["c0"]), ("const", h["c1"])] + ([("const", h["c2"])] if h["c2"] else [])
+    fb = c["fb"]
+    ga = c["g"][1]
+    if all(cc[0] == "const" for cc in fb):
+      fb = list(fb) + [("seq", [Q(2), Q(-1), Q(1, 2), Q(3)] * 3)]
+    if all(cc[0] == "const" for cc in ga):
+      ga = list(ga) + [("seq", [Q(1, 2), Q(-1), Q(2)] * 4)]
+    f = build_filter(fb, C, c.get("route", "expr"), bt)
+    g = build_filter(C, ga, c.get("route", "expr"), bt)
+    Nf, Cp = model_polys(fb, C, n)
+    _, Dg = model_polys(C, ga, n)
+    real = (f * g) if len(x) % 2 else (g * f)
+    N, D = P_mul(Nf, Cp), P_mul(Cp, Dg)
+    used = (fb + C, C + ga)
   elif op in ("add_fir_to_iir", "add_number"):
     # a filter with Streams in its feedback part plus a FIR filter / a plain number:
     # (Nf + Ng*Df) / Df - each denominator Stream is needed twice, still read once per sample
@@ -491,12 +516,13 @@ def run_algebra(c):
 CLAUSES = [
   Clause("single", strat_single, run_single, quick=1500, thorough=30000,
          floors={"a0 stream": .2, "stream in feedback": .2, "coefficient stream ends first": .05,
-                 "periodic": .1, "no numerator term": .05, "memory given": .1, "control stream": .1},
+                 "periodic": .1, "no numerator term": .05, "memory given": .1, "control stream": .1,
+                 "non-zero zero value": .1, "non-zero zero value, a0 stream": .04},
          doc="y[n] uses every coefficient stream's n-th value; ends with the shortest; one read per output"),
   Clause("constant_stream", strat_const, run_const, quick=500, thorough=8000,
          doc="a constant Stream coefficient behaves like the constant"),
   Clause("algebra", strat_algebra, run_algebra, quick=1200, thorough=25000,
          floors={"op:add_iir": .015, "op:shared_square": .015, "op:mul": .015, "op:hub_reuse": .04,
-                 "op:copy": .015, "null left operand": .004, "control stream": .1},
+                 "op:copy": .015, "null left operand": .004, "control stream": .1, "op:mul_common": .03},
          doc="sum / difference / product / scaling / delay act on coefficient sequences element by element; tee accounting"),
 ]
